@@ -141,9 +141,40 @@ def cheap(seeds, cap, workdir):
     return [s for s, n in zip(uniq, steps) if 0 < n <= cap]
 
 
-def peg_world(toks, maxtok, maxparen, seeds, budgets=False):
+def peg_world(toks, maxtok, maxparen, seeds, budgets=False, expect=()):
     g = json.load(open(os.path.join(vlib.SPEC, "grammar_frozen.json")))
-    return {"grammar": g, "tokens": toks, "maxtok": maxtok, "maxparen": maxparen, "seeds": seeds, "budgets": budgets}
+    return {"grammar": g, "tokens": toks, "maxtok": maxtok, "maxparen": maxparen, "seeds": seeds, "budgets": budgets, "expect": list(expect)}
+
+
+def symstr(s):
+    x = syms(s)
+    return None if x is None else "".join(x)
+
+
+def peg_tree(e):
+    """an expression tree in exactly the record shape spec/Peg.tla builds (strings over the model alphabet); None if not expressible"""
+    t = e["t"]
+    if t == "match":
+        path = [symstr(p) for p in e["sel"]["path"]]
+        val = symstr(e.get("val", ""))
+        if None in path or val is None:
+            return None
+        hv = e["op"] not in ("empty", "notempty")
+        ty = "ptr" if path[0] == "not" else e["sel"]["ty"]       # the renderer spells a selector starting with the word not as a JSON Pointer
+        return {"t": "match", "sel": {"ty": ty, "path": path}, "op": e["op"], "val": val if hv else "", "hv": hv}
+    if t == "not":
+        x = peg_tree(e["e"])
+        return None if x is None else {"t": "not", "e": x}
+    if t in ("and", "or"):
+        l, r = peg_tree(e["l"]), peg_tree(e["r"])
+        return None if l is None or r is None else {"t": t, "l": l, "r": r}
+    if t == "coll":
+        path = [symstr(p) for p in e["sel"]["path"]]
+        x = peg_tree(e["e"])
+        if None in path or x is None:
+            return None
+        return {"t": "coll", "op": e["op"], "sel": {"ty": "ptr" if path[0] == "not" else e["sel"]["ty"], "path": path}, "mode": e["mode"], "n1": e["n1"], "n2": e["n2"], "e": x}
+    return None
 
 
 def run_peg(chk, tag, world, invariants=(), shapes=True, timeout=3000):
